@@ -249,6 +249,20 @@ func runChild(ctx *core.Ctx, in *ChildInput) *ChildOutput {
 	select {
 	case err := <-done:
 		if ee, ok := err.(*exec.ExitError); ok && ee.ExitCode() != 66 {
+			// the Go runtime itself stops a program on unsynchronised map access:
+			// if that happened inside robfig/soy it is the race, observed directly
+			if r := parseFatal(stderr.String()); r != nil {
+				r.Phase = in.Phase
+				out := &ChildOutput{Phase: in.Phase, RaceBuild: RaceEnabled, Races: []RaceReport{*r}}
+				// keep what the detector had logged before the crash
+				logged := ParseRaceLog(ReadRaceLogs(logPrefix))
+				for i := range logged {
+					logged[i].classify()
+					logged[i].Phase = in.Phase
+				}
+				out.Races = append(out.Races, logged...)
+				return out
+			}
 			ctx.ToolError("child (%s) exited with %d: %s", in.Phase, ee.ExitCode(), trunc(stderr.String(), 1500))
 			return nil
 		}
@@ -286,6 +300,9 @@ func mismatchSig(m *Mismatch) core.Sig {
 }
 
 func raceSig(r *RaceReport) core.Sig {
+	if r.Fatal != "" {
+		return core.Sig{Family: "race-detector", Feature: "fatal-" + r.Fatal + ":@" + r.TopSoyFn}
+	}
 	if r.Field != "" {
 		return core.Sig{Family: "race-detector", Feature: "race:" + strip(r.Field)}
 	}
@@ -330,6 +347,9 @@ func judge(ctx *core.Ctx, outs []*ChildOutput) {
 			}
 			races++
 			what := fmt.Sprintf("DATA RACE in %s", r.TopSoyFn)
+			if r.Fatal != "" {
+				what = fmt.Sprintf("the Go runtime stopped the program: %s in %s", r.Fatal, r.TopSoyFn)
+			}
 			if r.Field != "" {
 				what += " on " + strip(r.Field)
 			}
